@@ -21,6 +21,9 @@ def _one(arg):
         if kind == "step":
             from pyvc.api import verify_step
             return verify_step(reg, reg.steps[name])
+        if kind == "roundtrip":
+            from pyvc.api import verify_roundtrip
+            return verify_roundtrip(reg, reg.roundtrips[name])
         return verify_contract(reg, reg.contracts[name])
     except Exception as e:
         import traceback
@@ -45,6 +48,10 @@ def verify_modules(mods, only=None, prop=None, jobs=None):
         if only and n not in only: continue
         if prop and prop not in l.props: continue
         items.append((mods, n, "step"))
+    for n, l in reg.roundtrips.items():
+        if only and n not in only: continue
+        if prop and prop not in l.props: continue
+        items.append((mods, n, "roundtrip"))
     jobs = jobs or min(16, max(1, len(items)))
     if jobs == 1 or len(items) <= 1:
         return [_one(i) for i in items]
